@@ -99,6 +99,13 @@ def all_subsets(xs):
 
 # stored witnesses (DESIGN.md par.7, C15) - always run first
 CORPUS = [
+    # explicit id 0: in use as the first segment's explicit id / as an automatic id -> refused; free -> honoured as 0
+    {"init": "factory", "kind": "corpus:explicit-id-0-twice", "ops": [seg(seg_id=0), seg(seg_id=0, parent=0, ty="dendrite")]},
+    {"init": "factory", "kind": "corpus:explicit-id-0-after-automatic-0",
+     "ops": [seg(), seg(seg_id=7, parent=0, ty="dendrite"), seg(parent=1, ty="dendrite"), seg(seg_id=0, parent=2, ty="axon")]},
+    {"init": "bare", "kind": "corpus:explicit-id-0-free-is-honoured",
+     "ops": [seg(seg_id=3), seg(seg_id=0, parent=0, ty="dendrite"), seg(parent=1, ty="dendrite"), seg(seg_id=1, parent=2, ty="axon"),
+             seg(parent=0, ty="axon")] + PROPS3},
     # containers created by the user with their own ids; setters interleaved with add_segment: a setter changes
     # nothing but its own property, whatever the ids of morphology / biophysical properties are
     {"init": "custom", "kind": "corpus:user-made-containers-setters-interleaved",
@@ -222,11 +229,11 @@ def gen_case(rng, long=False):
             sid = None
             q = rng.random()
             if q < 0.2:
-                sid = rng.choice([x for x in range(1, 60) if x not in used])
-            elif q < 0.23:
-                sid = 0
-            elif q < 0.26 and used and faulty:
-                sid = rng.choice(used)
+                sid = rng.choice([x for x in range(0, 60) if x not in used])
+            elif q < 0.24 and 0 not in used:
+                sid = 0                      # an explicit 0 is an id like any other
+            elif q < 0.28 and used and faulty:
+                sid = rng.choice(used + ([0] if 0 in used else []))
             parent = None if nseg == 0 else rng.randrange(nseg)
             if faulty and nseg > 0 and rng.random() < 0.05:
                 parent = None
@@ -240,7 +247,7 @@ def gen_case(rng, long=False):
                     ty=ty if (conv or rng.random() < 0.5) else None,
                     reorder=rng.random() < 0.5, optimise=rng.random() < 0.6)
             ops.append(o)
-            used.append(sid if sid else auto())
+            used.append(sid if sid is not None else auto())
             nseg += 1
             if g and g not in groups_seen:
                 groups_seen.append(g)
@@ -536,7 +543,7 @@ def expected_error(o, before):
             return "NoParent"
         if o["parent"] is not None and not (0 <= o["frac"] <= 4):
             return "Validation"
-        if o["seg_id"] and o["seg_id"] in before:
+        if o["seg_id"] is not None and o["seg_id"] in before:
             return "DupId"
         if o["conv"] and not o["ty"]:
             return "NoSegType"
@@ -581,19 +588,24 @@ def predicate(case, res):
         prev = cur
     for z, o in ((res["final"] or {}).get("probes") or []):
         if o.get("err") != "DupId":
-            bad.append(("C15:duplicate-explicit-segment-id-accepted",
+            bad.append(("C15:explicit-id-in-use-not-refused:id-0" if z == 0 else "C15:duplicate-explicit-segment-id-accepted",
                         "add_segment(seg_id=%d) on the finished cell, where that id is in use, did not raise ValueError" % z,
                         "ValueError", o.get("err", "returned normally")))
     # explicit id in use must be refused
     before = []
     for o, t in zip(case["ops"], trace):
-        if o["op"] == "seg" and o["seg_id"] and o["seg_id"] in before:
+        if o["op"] == "seg" and o["seg_id"] is not None and o["seg_id"] in before:
             early = (o["parent"] is None and before) or not (0 <= o["frac"] <= 4)
             if t.get("err") != "DupId" and not early:
-                bad.append(("C15:duplicate-explicit-segment-id-accepted",
+                bad.append(("C15:explicit-id-in-use-not-refused:id-0" if o["seg_id"] == 0 else "C15:duplicate-explicit-segment-id-accepted",
                             "add_segment(seg_id=%d) with that id in use did not raise ValueError" % o["seg_id"],
                             "ValueError", t.get("err", "returned normally")))
+        if o["op"] == "seg" and o["seg_id"] is not None and o["seg_id"] not in before and "state" in t \
+                and len(t["state"]["segs"]) == len(before) + 1 and t["state"]["segs"][-1][0] != o["seg_id"]:
+            bad.append(("C15:explicit-free-id-not-honoured", "add_segment(seg_id=%d), an id not in use, stored the segment under id %r"
+                        % (o["seg_id"], t["state"]["segs"][-1][0]), o["seg_id"], t["state"]["segs"][-1][0]))
         if "state" in t:
+            before = [s[0] for s in t["state"]["segs"]]
             for g in t["state"]["groups"]:
                 if g["id"] in g["includes"]:
                     bad.append(("C15:group-includes-itself", "group %r includes itself after %s" % (g["id"], json.dumps(o)[:120]),
@@ -623,7 +635,7 @@ def predicate(case, res):
                     "no new attribute", fin["new_attributes"]))
     if len(set(ids)) != len(ids):
         dup = sorted(x for x in set(ids) if ids.count(x) > 1)
-        explicit = [o["seg_id"] for o in case["ops"] if o["op"] == "seg" and o["seg_id"]]
+        explicit = [o["seg_id"] for o in case["ops"] if o["op"] == "seg" and o["seg_id"] is not None]
         key = ("C15:duplicate-explicit-segment-id-accepted" if all(explicit.count(d) >= 2 for d in dup)
                else "C15:automatic-id-collides-with-explicit-id")
         bad.append((key, "segment ids are not unique: %s" % dup, "unique ids", ids))
